@@ -120,6 +120,11 @@ PROPS = {
         "Machine-checked proof at machine level for all schedules and all boundaries; tied to the code by reopening every write boundary of generated histories (several channels per store) with a fresh Channels, including restart of channels caught in a cleanup status, listing of channels, and the durability of every state a query returned.",
         GO_SM + "; the CBOR codec of the record is not modelled in Coq: decode(encode(record)) = record is checked on every record of every crash image (raw decode and all accessors through a fresh Channels vs the model record), vouchers are opaque tokens so 'equal as DAG-CBOR data' is exercised only through the codec's own round trip (C12); crash points are datastore-write boundaries (the datastore's own atomicity of a single Put is assumed); manager-level restart paths are in noderestart",
         corr=NODE_CORR + ["corr/CrashCorr.v"]),
+    "C12": P("props/C12.v", ["wire", "net"],
+        "a Coq model of DAG-CBOR (heads, canonical map order, links, floats as bit patterns) with a machine-checked decode(encode v) = canonical v for every well-formed IPLD value, a model of the bindnode mapping of the messages with a machine-checked round trip through the network and IPLD forms, key-order irrelevance, missing-body rejection, exactly-one-kind and the append-only numbering; the schema (keys, order, types, nullability, representation) and the kind predicates are TRANSLATED from schema.ipldsch and the Is* methods on every run and the layout theorems are about them; the real ToNet / ToIPLD / extension encoders' bytes are compared BYTE FOR BYTE with the model for every constructor over random IPLD payloads, and decoded by both",
+        "Machine-checked proof for every message and every IPLD payload (64-bit ranges); the model's bytes equal the implementation's on every generated message, so the theorems are about the format actually written.",
+        "go-ipld-prime's dagcbor / bindnode are modelled (Cbor.v, Wire.v), not verified: the tie is the byte-for-byte comparison; 'decoding arbitrary bytes never panics / never yields a missing body' is a theorem only for the model's decoder, for the real decoders it is a test (a stream of random and mutated inputs under recover) - partial; floats are opaque 64-bit patterns; strings are byte strings (no UTF-8 validation, as the code ships peer ids in text strings)",
+        corr=["corr/WireCorr.v", "corr/NetCorr.v"]),
 }
 
 NOT_APPLICABLE = {}
